@@ -54,7 +54,7 @@ CFGS = {
     "agt-lk": C(Tables=["agt"], AgtKeys=["a", "c"], Orig=["a", "c"], Peer=["p", "q"], Seqs=[0],
                 PathKinds=["clean"], MaxEntries=3, Aging=False),
     "cidr-mt": C(Tables=["cidr"], CidrKeys="K_cidr_mt", CidrQ="Q_cidr", PathKinds=["clean", "loop", "none"]),
-    "dom-mt": C(Tables=["dom"], DomKeys="K_dom_mt", DomQ="Q_dom", Orig=["a"]),
+    "dom-mt": C(Tables=["dom"], DomKeys="K_dom_mt", DomQ="Q_dom", Orig=["p"]),
     "fwd-mt": C(Tables=["fwd"], FwdKeys=["web"]),
     "agt-mt": C(Tables=["agt"], AgtKeys=["a"], Orig=["a"], MaxEntries=2),
     "cidr-loc": C(Tables=["cidr"], CidrKeys="K_cidr_mtT", CidrQ="Q_cidr", Orig=["a"], Peer=["p"], Metrics=[0], Seqs=[1],
@@ -112,7 +112,7 @@ DEVCFG = {"DevLookupAnyPrefix": "cidr-lk", "DevLookupIgnoreMetric": "cidr-lk", "
           "DevAgentSlotNoNextHop": "agt-mt"}
 
 
-def run_many(ctx, jobs, par=6, timeout=1500):
+def run_many(ctx, jobs, par=None, timeout=1800):
     """Run several TLC instances concurrently (the bounded instances are independent and JVM start-up dominates the
     small ones).  jobs: list of (cfg name, dev list, emit, expect_violation).  Returns the TLCResults in order.
     Local helper (lib/vf.py's ctx.tlc runs one instance at a time); same scratch layout, parser and error rules."""
@@ -121,6 +121,7 @@ def run_many(ctx, jobs, par=6, timeout=1500):
     running = []
     t0 = time.time()
     workers = 2 if ctx.quick() else 4
+    par = par or (16 if ctx.quick() else 5)
 
     def start(i, job):
         name, dev, emit, _ = job
@@ -302,18 +303,37 @@ def report_replay(ctx, pid, mism, lkmism):
     return other
 
 
-def traces(ctx, pid, tables, ntraces, nops, name):
-    """code -> spec.  Returns (harness summary, validation result dict)."""
-    out = os.path.join(ctx.work, name + ".ndjson")
-    env = {"ZZV_OUT": out, "ZZV_TRACES": ntraces, "ZZV_OPS": nops, "ZZV_TABLES": ",".join(tables)}
-    if os.environ.get("VERIF_SELFTEST_CORRUPT"):
-        env["ZZV_CORRUPT"] = os.environ["VERIF_SELFTEST_CORRUPT"]   # binding self-test: falsify one logged event
-    r = ctx.gotest("routing", HFILES, "^TestZZVRouteTrace$", env=env)
-    summ = r.of("summary")
-    if not summ:
-        raise vf.Infra("trace harness produced no summary")
-    v = ctx.validate_trace("TraceRouteTable", "TraceRouteTable.cfg", out, name=name, timeout=1800)
-    return summ[0], v
+def traces(ctx, pid, tables, ntraces, nops, name, chunks=1):
+    """code -> spec.  `chunks` separate recordings of ntraces histories each (one TLC validation per recording keeps
+    the deserialised trace small).  Returns (aggregated harness summary, validation result of the last recording or of
+    the first one that was not accepted)."""
+    agg, v = None, None
+    for c in range(chunks):
+        out = os.path.join(ctx.work, "%s-%d.ndjson" % (name, c))
+        env = {"ZZV_OUT": out, "ZZV_TRACES": ntraces, "ZZV_OPS": nops, "ZZV_TABLES": ",".join(tables), "ZZV_CHUNK": c}
+        if os.environ.get("VERIF_SELFTEST_CORRUPT"):
+            env["ZZV_CORRUPT"] = os.environ["VERIF_SELFTEST_CORRUPT"]   # binding self-test: falsify one logged event
+        r = ctx.gotest("routing", HFILES, "^TestZZVRouteTrace$", env=env)
+        summ = r.of("summary")
+        if not summ:
+            raise vf.Infra("trace harness produced no summary")
+        s = summ[0]
+        v = ctx.validate_trace("TraceRouteTable", "TraceRouteTable.cfg", out, name=name, timeout=2400)
+        if agg is None:
+            agg = dict(s)
+            agg["validated_traces"] = 0
+            agg["highwater_total"] = 0
+        else:
+            for k in ("traces", "events", "lookup_hits", "lookup_misses", "lookup_multi_candidate"):
+                agg[k] += s[k]
+            for k, n in s["counts"].items():
+                agg["counts"][k] = agg["counts"].get(k, 0) + n
+        agg["highwater_total"] += (v["hw"] or 1) - 1
+        if not v["accepted"]:
+            break
+        agg["validated_traces"] += s["traces"]
+        os.remove(out)
+    return agg, v
 
 
 def report_trace(ctx, pid, v):
